@@ -1654,6 +1654,8 @@ pub fn check_c07(tier: &str) -> i32 {
     // server untouched and frees its slot
     let st_iso = crate::checks::sessions::garbage_isolation_phase();
     rep.phase("production TCP / TLS server task: malformed input on one session, the others keep being served", st_iso, json!({}));
+    let (st_hs, hs_info) = crate::checks::lifecycle_net::handshake_input_phase(thorough);
+    rep.phase("production TLS client task: every cut of the peer's handshake flight, then silence, against scripts of API calls", st_hs, hs_info);
     rep.phase("RTU server: session re-run after every session error (port re-open)", st, json!({"probes": 4, "oracle": "session errors <= bytes received + 1"}));
     let st = parallel(client_seeds.len() * levels.len(), |j, st| {
         let (rtu, req, seed) = &client_seeds[j / levels.len()];
